@@ -102,6 +102,23 @@ func c18(w *core.World, r *core.Report) {
 		ruleRefusalReasons(w, r, b)
 	}
 
+	r.Rule("R18.7", "snapshot units: the slot (and with it the marker's slot tag) is computed from the key the unit's commands are written under", 1)
+	if f := fn(w, r, "(*syncer.RedisOutput).buildBisyncRdbReplayUnit"); f != nil {
+		isTarget := isResultOf("(*syncer.RedisOutput).bisyncRdbTargetKey", -1)
+		n := 0
+		for _, st := range core.SitesNamed(f, false, "pkg/redis.KeyToSlot") {
+			n++
+			arg := core.Unwrap(st.Args()[0])
+			if c, ok := arg.(*ssa.Call); ok && core.ResolveCall(c).Name == "pkg/util.BytesToString" {
+				arg = core.Unwrap(c.Call.Args[0])
+			}
+			r.Check(core.DependsOn(arg, isTarget), "buildBisyncRdbReplayUnit/slot-of-written-key", st.Pos(), "the unit's slot must be the slot of the key its commands are written under (the possibly rewritten target key), not of the source key: with hash-tag rewriting the marker would be placed in another slot than the business keys and the transaction refused as cross-slot")
+		}
+		if n == 0 {
+			r.Fail("buildBisyncRdbReplayUnit/slot-of-written-key", f.Pos(), "no slot computation found for snapshot units")
+		}
+	}
+
 	// "Single-slot" is judged by the builder with pkg/redis.KeyToSlot and by the
 	// client with its own hash(); a unit the builder accepts is single-slot for
 	// the cluster only if both are Redis Cluster's HASH_SLOT. The slot-function
